@@ -177,7 +177,16 @@ def run(ck):
                 for c in h:
                     k = c["c"]
                     if k == "assert":
-                        s.add_assertion(fm[c["x"]])
+                        # the batch entry point with every kind of iterable is another spelling of the same command
+                        way = ck.rng.randrange(6)
+                        if way == 0:
+                            s.add_assertions([fm[c["x"]]])
+                        elif way == 1:
+                            s.add_assertions(f_ for f_ in (fm[c["x"]],))
+                        elif way == 2:
+                            s.add_assertions(iter((fm[c["x"]],)))
+                        else:
+                            s.add_assertion(fm[c["x"]])
                     elif k == "push":
                         s.push(c["n"])
                     elif k == "pop":
